@@ -400,6 +400,18 @@ static void fam_key(std::vector<Target> &V)
 		if (!k.import(in)) return 0;
 		if (!k.check()) return 0;
 		(void)k.fingerprint(), (void)k.keyid();
+		use_export(k);
+		// TMCG_SecretKey::check() validates the public part only: a file with p*q != m passes.  Signing with such a key is
+		// outside C12 (and with a 70000-digit "p" it takes minutes), so the private operations are exercised only on
+		// consistent keys.
+		{
+			mpz_t pq;
+			mpz_init(pq);
+			mpz_mul(pq, k.p, k.q);
+			bool consistent = !mpz_cmp(pq, k.m) && mpz_sizeinbase(k.p, 2) <= TMCG_MAX_KEYBITS && mpz_sizeinbase(k.q, 2) <= TMCG_MAX_KEYBITS;
+			mpz_clear(pq);
+			if (!consistent) return 1;
+		}
 		std::string sig = k.sign("data to sign");
 		if (!k.verify("data to sign", sig)) throw std::logic_error("own signature does not verify");
 		unsigned char msg[TMCG_SAEP_S0], out[TMCG_SAEP_S0];
